@@ -515,6 +515,12 @@ class C10:
             # the first call of the history (in execute); from then on its output must not matter
         case["twin_target"] = twin_t
         case["twin_tol0"] = r.random() < 0.5
+        if twin_t is not None and r.random() < 0.4 and spec["values"][twin_t] > 0:
+            # the target that is going to be switched off is matched on a logarithmic scale (Target(optimize_log=True)); it is
+            # active while the optimizer is built, so its value there must be positive
+            from .world import plant_eval
+            if plant_eval(spec["plant"], spec["start"])[twin_t] > 0:
+                spec["optlog"] = [j == twin_t for j in range(spec["nt"])]
         return case
 
     @staticmethod
